@@ -5,6 +5,7 @@ package main
 
 import (
 	"fmt"
+	"os"
 	"strings"
 )
 
@@ -355,4 +356,16 @@ func c07LongTails(g *Gen, emit func(kind, src string)) {
 	emit("longtail", "func f() { if a { for x in y { try { ) } finally { } } } }\n"+strings.Repeat("c := 2 ; ", tailN/4))
 	emit("longtail", "a := 1 b "+strings.Repeat("d ", tailN))
 	emit("longtail", fmt.Sprintf("x := [ %s ] ]\n", strings.Repeat("1 , ", 1000))+strings.Repeat("e\n", tailN))
+	if g.Thorough() {
+		emit("longtail", ") "+strings.Repeat("a ", 1000000)) // 10^6 tokens after a first-token error
+	}
+	if os.Getenv("C07_AMPLIFY") != "" {
+		// a source fact about the channel skeleton was not established in this run: more tails, at more distances
+		for _, head := range []string{") ", "a ) ", "a b c ) ", "( a ", "[ 1 , ", "if a { ) ", "f ( ) ) ", "x := \" "} {
+			for _, k := range []int{1, 2, 3, 4, 5, 7, 50, 20000} {
+				emit("longtail", head+strings.Repeat("t ", k))
+			}
+		}
+		emit("longtail", ") "+strings.Repeat("a ", 4*tailN))
+	}
 }
